@@ -180,8 +180,8 @@ type N struct {
 func Tree(t *model.Tree) *N  { return &N{T: t} }
 func List(l *model.ListT) *N { return &N{L: l} }
 
-func (n *N) child(t *model.Tree) *N  { return &N{T: t, ReadOnly: n.ReadOnly, OnWrite: n.OnWrite} }
-func (n *N) list(l *model.ListT) *N  { return &N{L: l, ReadOnly: n.ReadOnly, OnWrite: n.OnWrite} }
+func (n *N) child(t *model.Tree) *N { return &N{T: t, ReadOnly: n.ReadOnly, OnWrite: n.OnWrite} }
+func (n *N) list(l *model.ListT) *N { return &N{L: l, ReadOnly: n.ReadOnly, OnWrite: n.OnWrite} }
 func (n *N) wrote() {
 	if n.ReadOnly {
 		panic("mnode: write to read-only source")
@@ -357,5 +357,5 @@ func (n *N) Notify(r node.NotifyRequest) (node.NotifyCloser, error) {
 	return nil, fmt.Errorf("mnode: no notifications")
 }
 func (n *N) Peek(sel *node.Selection, consumer interface{}) interface{} { return n.T }
-func (n *N) Context(sel *node.Selection) context.Context               { return sel.Context }
-func (n *N) Release(sel *node.Selection)                               {}
+func (n *N) Context(sel *node.Selection) context.Context                { return sel.Context }
+func (n *N) Release(sel *node.Selection)                                {}
